@@ -244,8 +244,7 @@ Definition g_wr (b : bytes) (x : st) : out :=
             Done (set_gz x3 (gz_on x3) (gz_fw x3) (gz_comp x3) (gz_wrote x3) true true (gz_pend x3 ++ b))))
       else c_wr (Raw b) x1)
   else c_wr (Raw b) x.
-(* ResponseFilterWriter.Flush: the header goes out through the filters first. The wrappers
-   above (templates' ResponseBuffer, header's wrapper) only forward Flush. *)
+(* ResponseFilterWriter.Flush: the header goes out through the filters first. *)
 Definition g_fl (x : st) : out :=
   if gz_on x then bnd (if gz_fw x then Done x else g_wh 200 x) c_fl else c_fl x.
 (* deferred putWriter: Close of a writer that was handed out *)
@@ -290,6 +289,11 @@ Definition b_sethdr (k v : bytes) (x : st) : st :=
   if b_active x then set_b x (b_mode x) (b_wrote x) (b_stream x) (b_status x) (hset (b_hdr x) k v) (b_buf x)
   else set_chdr x (hset (chdr x) k v).
 
+(* ResponseBuffer.Flush: nothing is sent while the response is being buffered. Otherwise the
+   wrappers (ResponseBuffer, header's wrapper) only forward Flush. *)
+Definition b_fl (x : st) : out :=
+  if b_active x && b_wrote x && negb (b_stream x) then Done x else g_fl x.
+
 (* ---------- the innermost handler ---------- *)
 Inductive op := OSet (k v : bytes) | OWh (s : Z) | OWr (b : bytes) | OFl | OPanic.
 
@@ -298,7 +302,7 @@ Definition step (o : op) (x : st) : out :=
   | OSet k v => Done (b_sethdr k v x)
   | OWh s => b_wh s x
   | OWr b => b_wr b x
-  | OFl => g_fl x
+  | OFl => b_fl x
   | OPanic => Pan x
   end.
 Fixpoint run_script (ops : list op) (x : st) : out :=
@@ -306,6 +310,12 @@ Fixpoint run_script (ops : list op) (x : st) : out :=
   | [] => Done x
   | o :: r => bnd (step o x) (run_script r)
   end.
+
+(* the body part of the scripts the theorems speak about: Writes and Flushes *)
+Inductive wop := WWr (b : bytes) | WFl.
+Definition wop_op (w : wop) : op := match w with WWr b => OWr b | WFl => OFl end.
+Definition wop_bytes (w : wop) : bytes := match w with WWr b => b | WFl => [] end.
+Definition wbody (ws : list wop) : bytes := concat (map wop_bytes ws).
 
 (* result of a Handler.ServeHTTP call *)
 Inductive hres := HRet (s : Z) (e : bool) (x : st) | HPan (x : st).
